@@ -232,7 +232,7 @@ pub fn render(log: &[crate::sched::Logged], addrs: &[(String, usize, usize, usiz
                 let _ = write!(s, ",{}", u);
             }
         } else {
-            let _ = write!(s, ",\"a\":[{},{},{},{}],\"addr\":{}", e.args[0], e.args[1], e.args[2], e.args[3], e.addr);
+            let _ = write!(s, ",\"a\":[{},{},{},{}]", e.args[0], e.args[1], e.args[2], e.args[3]);
         }
         s.push('}');
         out.push(s);
